@@ -250,13 +250,13 @@ class CallListerVisitor(ast.NodeVisitor):
         self.process_parameters(func.args, main=True)
         for stmt in func.body:
             self.visit(stmt)
-        main_calls = len(self.calls)
         for node, ns in self.to_revisit:
             self.namespace = ns
             self.process_Call(node)
-        # a nested function can run before any call of the main body:
-        # what it taints was never safe to forward from there either
-        for i, call in enumerate(self.calls[:main_calls]):
+        # a nested function can run before any other call, of the main body
+        # or of another nested function: what it taints was never safe to
+        # forward from there either
+        for i, call in enumerate(self.calls):
             self.calls[i] = self.recheck_taint(call)
 
     def process_parameters(self, args, main=False):
